@@ -26,6 +26,16 @@ fn fvar_bytes(axes: &[(i32, i32, i32)]) -> Vec<u8> {
 
 type Knots = Vec<(i16, i16)>;
 
+fn fvar_bytes_flags(axes: &[(i32, i32, i32)], flags: &[u16]) -> Vec<u8> {
+    let mut w = W::new();
+    let n = axes.len() as u16;
+    w.u16(1).u16(0).u16(16).u16(2).u16(n).u16(20).u16(0).u16(4 * n + 4);
+    for (i, (min, def, max)) in axes.iter().enumerate() {
+        w.u32(otmodel::tag(b"ax00") + i as u32).i32(*min).i32(*def).i32(*max).u16(flags[i]).u16(256 + i as u16);
+    }
+    w.done()
+}
+
 fn avar_bytes(maps: &[Knots]) -> Vec<u8> {
     let mut w = W::new();
     w.u16(1).u16(0).u16(0).u16(maps.len() as u16);
@@ -364,34 +374,64 @@ fn run_normalize(ctx: &Ctx) {
             }
         }
     }
-    // two axes: each axis is normalised independently with its own avar map
-    let two = [(0, 0, 65536 * 100), (-65536 * 10, 0, 65536 * 10)];
-    let fv = fvar_bytes(&two);
-    let k0: Knots = vec![(-16384, -16384), (0, 0), (8192, 4096), (16384, 16384)];
-    let k1: Knots = vec![(-16384, -16384), (-8192, -12288), (0, 0), (16384, 16384)];
-    let av = avar_bytes(&[k0.clone(), k1.clone()]);
-    let fvar = ReadScope::new(&fv).read::<FvarTable<'_>>().unwrap();
-    let avar = ReadScope::new(&av).read::<AvarTable<'_>>().unwrap();
-    for &u0 in &[0, 65536 * 50, 65536 * 100] {
-        for &u1 in &[-65536 * 10, -65536 * 5, 0, 65536 * 10] {
-            let r = guard(|| fvar.normalize([Fixed::from_raw(u0), Fixed::from_raw(u1)].iter().copied(), Some(&avar)).map(|t| (t[0].raw_value(), t[1].raw_value())));
-            ctx.evals(1);
-            let e0 = {
-                let (n, d) = default_norm(two[0].0 as i64, two[0].1 as i64, two[0].2 as i64, u0 as i64);
-                let ((en, ed), _) = avar_map(&k0, n, d);
-                en as f64 / ed as f64
-            };
-            let e1 = {
-                let (n, d) = default_norm(two[1].0 as i64, two[1].1 as i64, two[1].2 as i64, u1 as i64);
-                let ((en, ed), _) = avar_map(&k1, n, d);
-                en as f64 / ed as f64
-            };
-            match r {
-                Ok(Ok((g0, g1))) if (g0 as f64 - e0).abs() <= 1.0 && (g1 as f64 - e1).abs() <= 1.5 => {}
-                o => ctx.violation("C13:two-axes", || json!({"users": [u0, u1], "expected": [e0, e1], "got": format!("{:?}", o)})),
-            }
+    // Several axes: each axis is normalised independently, with its own avar segment map - which may be EMPTY (count 0:
+    // the axis keeps its default normalisation) - and whatever its fvar flags say (HIDDEN_AXIS only concerns user
+    // interfaces). All combinations of 4 map kinds x hidden flag x 4 user positions on 3 axes.
+    let three = [(0, 0, 65536 * 100), (-65536 * 10, 0, 65536 * 10), (65536 * 8, 65536 * 12, 65536 * 144)];
+    let kinds: [Knots; 4] = [
+        vec![],
+        vec![(-16384, -16384), (0, 0), (16384, 16384)],
+        vec![(-16384, -16384), (0, 0), (8192, 4096), (16384, 16384)],
+        vec![(-16384, -16384), (-8192, -12288), (0, 0), (16384, 16384)],
+    ];
+    let user_of = |ax: (i32, i32, i32), k: usize| -> i32 {
+        match k {
+            0 => ax.1,
+            1 => ax.0,
+            2 => ax.2,
+            _ => ((ax.1 as i64 + ax.2 as i64) / 2) as i32,
         }
-    }
+    };
+    let combos: Vec<(usize, usize, usize)> = (0..64).flat_map(|m| (0..8).flat_map(move |f| (0..64).map(move |u| (m, f, u)))).collect();
+    let n_multi: u64 = combos
+        .par_iter()
+        .map(|&(m, f, u)| {
+            let mi = [m % 4, (m / 4) % 4, m / 16];
+            let fl = [(f & 1) as u16, ((f >> 1) & 1) as u16, ((f >> 2) & 1) as u16];
+            let ui = [u % 4, (u / 4) % 4, u / 16];
+            let fv = fvar_bytes_flags(&three, &fl);
+            let av = avar_bytes(&[kinds[mi[0]].clone(), kinds[mi[1]].clone(), kinds[mi[2]].clone()]);
+            let users: Vec<i32> = (0..3).map(|i| user_of(three[i], ui[i])).collect();
+            let desc = || json!({"axes_16.16": three, "axis_flags": fl, "avar_maps": [&kinds[mi[0]], &kinds[mi[1]], &kinds[mi[2]]], "users_16.16": users});
+            let r = guard(|| {
+                let fvar = ReadScope::new(&fv).read::<FvarTable<'_>>().map_err(|e| format!("fvar {:?}", e))?;
+                let avar = ReadScope::new(&av).read::<AvarTable<'_>>().map_err(|e| format!("avar {:?}", e))?;
+                fvar.normalize(users.iter().map(|u| Fixed::from_raw(*u)), Some(&avar)).map(|t| t.iter().map(|v| v.raw_value()).collect::<Vec<i16>>()).map_err(|e| format!("normalize {:?}", e))
+            });
+            let expect: Vec<f64> = (0..3)
+                .map(|i| {
+                    let (n, d) = default_norm(three[i].0 as i64, three[i].1 as i64, three[i].2 as i64, users[i] as i64);
+                    if kinds[mi[i]].is_empty() {
+                        (n * 16384) as f64 / d as f64
+                    } else {
+                        let ((en, ed), _) = avar_map(&kinds[mi[i]], n, d);
+                        en as f64 / ed as f64
+                    }
+                })
+                .collect();
+            match r {
+                Ok(Ok(got)) if got.len() == 3 && (0..3).all(|i| (got[i] as f64 - expect[i]).abs() <= 1.5) => {}
+                Ok(Ok(got)) => ctx.violation("C13:several-axes:value", || json!({"case": desc(), "expected_2.14": expect, "got_2.14": got})),
+                Ok(Err(e)) => ctx.violation("C13:several-axes:wellformed-tables-rejected", || json!({"case": desc(), "error": e})),
+                Err(p) => ctx.violation(&format!("C13:panic:{}", p.site_key("/repo")), || json!({"case": desc(), "panic": p.msg})),
+            }
+            1u64
+        })
+        .sum();
+    ctx.evals(n_multi);
+    ctx.add_states(n_multi);
+    ctx.add_transitions(n_multi);
+    ctx.set("several_axes_cases", json!(n_multi));
 }
 
 fn run_conversions(ctx: &Ctx) {
